@@ -41,7 +41,7 @@ def edits_of(l, elems, maxlen, rng):
     return [x for x in out if x != l]
 
 
-def rand_script(rng, n, events):
+def rand_script(rng, n, events, nodef=False):
     """a random walk over the as-is Config model (kept in step here only to produce legal stimulus: which
     announcements Tor has queued, what an in-place edit starts from); the oracle is ConfigTrace.tla"""
     elems = ["x", "y", "z"]
@@ -50,7 +50,7 @@ def rand_script(rng, n, events):
     view = dict((k, list(v)) for k, v in tor.items())
     for k in ("l1", "l2"):
         if not view[k]:
-            view[k] = ["d1"]
+            view[k] = [] if (nodef and k == "l2") else ["d1"]
     script = [dict(a="Attach", store=dict((k, list(v)) for k, v in tor.items()))]
     pend, pval, busy, inflight, evq = [], {}, False, [], []
     flights = []        # the pair lists of the saves awaiting a reply, oldest first
@@ -67,7 +67,7 @@ def rand_script(rng, n, events):
             script.append(dict(a="Deliver", chs=[dict(o=o, v=list(v)) for o, v in chs]))
             for o, vals in chs:
                 if o.startswith("l"):
-                    view[o] = list(vals) if vals else ["d1"]
+                    view[o] = list(vals) if vals else ([] if (nodef and o == "l2") else ["d1"])
             continue
         if busy and r < 0.45:
             head = flights.pop(0)
@@ -99,7 +99,7 @@ def rand_script(rng, n, events):
             v = [rng.choice(elems) for _ in range(rng.randint(0, 3))]
             script.append(dict(a="Assign", o=o, v=v))
             touch(o, v)
-        elif r < 0.66:
+        elif r < 0.66 and not nodef:
             o = rng.choice(["l1", "l2"])
             o2 = "l2" if o == "l1" else "l1"
             v = list(view[o2])
@@ -149,20 +149,25 @@ def run(pid, tier, seed):
     rep = common.Report(pid, tier, seed)
     rep.assumptions = list(ASSUME)
     pipeline.design_check(rep, "Config_MC",
-                          ["Config_MC_ideal_quick", "Config_MC_asis_quick"] if tier == "quick"
-                          else ["Config_MC_ideal_quick", "Config_MC_asis_quick", "Config_MC_ideal_thorough", "Config_MC_asis_thorough"],
+                          ["Config_MC_ideal_quick", "Config_MC_ideal_nodef", "Config_MC_asis_quick"] if tier == "quick"
+                          else ["Config_MC_ideal_quick", "Config_MC_ideal_nodef", "Config_MC_asis_quick", "Config_MC_ideal_thorough", "Config_MC_asis_thorough"],
                           timeout=250 if tier == "quick" else 900,
                           expect_cex=["Config_Dev_DEmpt", "Config_Dev_DLost"] if pid == "C10" else ["Config_Dev_DDef"])
     rng = random.Random(seed)
     sims = pipeline.generate(rep, "Config_Gen", "Config_Gen_%s.cfg" % pid, 300 if tier == "quick" else 3000, 30, seed)
-    scripts = list(sims)
-    for _ in range(300 if tier == "quick" else 4000):
-        scripts.append(rand_script(rng, rng.choice([12, 25, 50]) if tier == "quick" else rng.choice([25, 60, 150]), events=(pid == "C11")))
+    scripts = [(s, False) for s in sims]
+    for k in range(300 if tier == "quick" else 4000):
+        # every fourth random script runs against a Tor whose second list option has no built-in default
+        scripts.append((rand_script(rng, rng.choice([12, 25, 50]) if tier == "quick" else rng.choice([25, 60, 150]), events=(pid == "C11"),
+                                    nodef=(k % 4 == 1)), k % 4 == 1))
     traces, seen = [], set()
-    for i, s in enumerate(scripts):
+    for i, (s, nodef) in enumerate(scripts):
         pick = dict(s1=i % 3, s2=(i // 3) % 2, l1=(i // 6) % 2, l2=0, offline=(i % 4 == 3))
         if any(e["a"] == "AssignFrom" for e in s):
             pick["l1"] = 2          # both list options with the same concrete texts: a copied value keeps its tokens
+        if nodef:
+            pick["l2"] = 1          # the second list option is one Tor has no built-in default for (TransPort)
+            pick["l1"] = min(pick["l1"], 1)
         if pid == "C11" and i % 5 == 2:
             pick["midboot"] = ["s2", "l1", "s1"][(i // 5) % 3]       # a change by another controller during our bootstrap
         traces.append(cfgh.replay(s, pick))
@@ -188,8 +193,13 @@ def run(pid, tier, seed):
         if fid in mine:
             orig(fid, what)
     rep.known_finding = kf
-    ok = pipeline.validate(rep, pid, "Config", "ConfigTrace", "ConfigTrace.cfg", traces, chunk=150, known=allknown,
-                           payload=lambda t: dict(script=pipeline.strip_obs(t), pick=t["pick"]))
+    # two batches: against a Tor whose second list option has a built-in default, and one where it has none
+    ok = []
+    for nodef in (False, True):
+        part = [t for t in traces if (t["pick"].get("l2") == 1) == nodef]
+        ok += pipeline.validate(rep, pid, "Config", "ConfigTrace", "ConfigTrace.cfg", part, chunk=150, known=allknown,
+                                payload=lambda t: dict(script=pipeline.strip_obs(t), pick=t["pick"]),
+                                extra_env=dict(NODEF="1") if nodef else None)
     rep.cov["samples"] = [dict(names=t["names"], steps=t["steps"][:8]) for t in ok[:1]]
     return rep.finish()
 
@@ -197,7 +207,7 @@ def run(pid, tier, seed):
 def replay(pid, path):
     p = json.load(open(path))
     t = cfgh.replay(p["script"], p["pick"])
-    res, r = tlc.validate_traces("ConfigTrace", "ConfigTrace.cfg", [t])
+    res, r = tlc.validate_traces("ConfigTrace", "ConfigTrace.cfg", [t], 1800, dict(NODEF="1") if p["pick"].get("l2") == 1 else None)
     x = res[0]
     known = set(f["id"] for f in common.known_findings().get("open", []))
     print("replay: matched %d of %d steps, deviations %s" % (x["matched"], x["wanted"], x["devs"]))
